@@ -836,9 +836,54 @@ def _lower_dict_dispatch(stmts, dicts):
     return out
 
 
-def normalize_module(tree: ast.Module):
+def imported_private_helpers(tree: ast.Module, path, renames=None):
+    """Module-level helper functions that did not exist at the audited commit and that `tree` imports from a sibling
+    module of the package (`from .x import _helper`): [(copy of the normalised FunctionDef, ImportFrom level, module
+    name, names bound at the home module's top level)].  The home module is parsed and normalised on its own."""
+    from pathlib import Path
+    out = []
+    path = Path(path)
+    for st in tree.body:
+        if not isinstance(st, ast.ImportFrom) or st.level < 1 or not st.module:
+            continue
+        names = [a.name for a in st.names if a.asname in (None, a.name) and _is_private_new(a.name)]
+        if not names:
+            continue
+        base = path.parent
+        for _ in range(st.level - 1):
+            base = base.parent
+        home = base.joinpath(*st.module.split("."))
+        home = home.with_suffix(".py") if home.with_suffix(".py").is_file() else home / "__init__.py"
+        if not home.is_file():
+            continue
+        try:
+            htree = ast.parse(home.read_text(encoding="utf-8"))
+        except SyntaxError:
+            continue
+        if renames:
+            apply_attribute_renames(htree, renames)
+        normalize_module(htree)
+        bound = set()
+        for hs in htree.body:
+            if isinstance(hs, (ast.FunctionDef, ast.AsyncFunctionDef, ast.ClassDef)):
+                bound.add(hs.name)
+            elif isinstance(hs, ast.Assign):
+                bound |= {t.id for t in hs.targets if isinstance(t, ast.Name)}
+            elif isinstance(hs, ast.AnnAssign) and isinstance(hs.target, ast.Name):
+                bound.add(hs.target.id)
+            elif isinstance(hs, (ast.Import, ast.ImportFrom)):
+                bound |= {(a.asname or a.name).split(".")[0] for a in hs.names}
+        for hs in htree.body:
+            if isinstance(hs, (ast.FunctionDef, ast.AsyncFunctionDef)) and hs.name in names:
+                out.append((hs, st.level, st.module, bound))
+    return out
+
+
+def normalize_module(tree: ast.Module, imported=None):
     """In-place normalisation of a parsed module; returns (number of inlined call
-    sites, set of helper qualnames that were inlined)."""
+    sites, set of helper qualnames that were inlined).  `imported`: helpers defined in sibling modules
+    (imported_private_helpers) - they are inlined like local ones, and the names of their home module that the
+    inlined bodies use are imported into this module."""
     total = 0
     used_all = set()
     for n in ast.walk(tree):
@@ -847,6 +892,12 @@ def normalize_module(tree: ast.Module):
             ast.fix_missing_locations(n)
     mod_funcs = [n for n in tree.body if isinstance(n, (ast.FunctionDef, ast.AsyncFunctionDef))]
     mod_helpers = _collect_helpers(mod_funcs, "function", None)
+    foreign = {}
+    for fnode, level, modname, bound in imported or ():
+        h = _collect_helpers([fnode], "function", None)
+        if fnode.name in h and fnode.name not in mod_helpers:
+            mod_helpers[fnode.name] = h[fnode.name]
+            foreign[fnode.name] = (fnode, level, modname, bound)
 
     def do_function(fn, helpers, owner):
         nonlocal total
@@ -884,6 +935,25 @@ def normalize_module(tree: ast.Module):
     for n in tree.body:
         if isinstance(n, ast.ClassDef):
             do_class(n, mod_helpers)
+    # names of the home module that inlined foreign helper bodies refer to become imports of this module
+    here = set()
+    for st in tree.body:
+        if isinstance(st, (ast.FunctionDef, ast.AsyncFunctionDef, ast.ClassDef)):
+            here.add(st.name)
+        elif isinstance(st, ast.Assign):
+            here |= {t.id for t in st.targets if isinstance(t, ast.Name)}
+        elif isinstance(st, ast.AnnAssign) and isinstance(st.target, ast.Name):
+            here.add(st.target.id)
+        elif isinstance(st, (ast.Import, ast.ImportFrom)):
+            here |= {(a.asname or a.name).split(".")[0] for a in st.names}
+    for name in sorted(used_all & set(foreign)):
+        fnode, level, modname, bound = foreign[name]
+        free = {n.id for n in ast.walk(fnode) if isinstance(n, ast.Name) and isinstance(n.ctx, ast.Load)}
+        need = sorted((free & bound) - here)
+        if need:
+            tree.body.append(ast.ImportFrom(module=modname, names=[ast.alias(name=x, asname=None) for x in need], level=level))
+            here |= set(need)
+    ast.fix_missing_locations(tree)
     dicts = _module_dicts(tree)
     for n in ast.walk(tree):
         if isinstance(n, (ast.FunctionDef, ast.AsyncFunctionDef)):
